@@ -424,6 +424,22 @@ where
     }
 }
 
+/// Verification hook: forwards to the private [`TunnelGateway::create_scmp_error`].
+#[cfg(feature = "verif-hooks")]
+pub(crate) fn verif_create_scmp_error<A, D, O: ?Sized>(
+    err: PacketPolicyError,
+    local_addr: ScionHostAddr,
+    dst_addr: ScionAddr,
+    target_buf: &mut Packet,
+) -> Result<usize, EncodeError>
+where
+    D: Dispatcher + 'static,
+    A: SnapTunAuthorization + 'static,
+    O: TunnelGatewayObserver<A::SessionData> + 'static,
+{
+    TunnelGateway::<A, D, O>::create_scmp_error(err, local_addr, dst_addr, target_buf)
+}
+
 fn create_inbound_scmp_error(err: PacketPolicyError) -> scmp::model::ScmpMessage {
     match err {
         PacketPolicyError::MalformedPacket(offending_packet, _) => {
